@@ -15,6 +15,10 @@ def p_c12(facts, rep, tier):
     rep.floor("C12 guardfx functions", n_fn, 5)
     rep.floor("C12 guardfx effect sites", n_eff, 20)
     rep.floor("C12 guardfx guards", n_guard, 9)
+    import witness
+
+    nw = witness.run(rep, ["c12"])
+    rep.floor("C12 witness doctests", nw, 6)
     rep.assume(
         "effects are exactly the calls/stores of the effect table in rules/guardfx.py (rollback log, root, marker, overlay status, store commit)",
         "path feasibility is ignored (every CFG path is considered executable)",
@@ -139,6 +143,32 @@ def p_c20(facts, rep, tier):
     rep.trust("rustc MIR (nightly, mir-opt-level=0)", "rules/fileclass.py", "libc constant values LOCK_EX=2, LOCK_NB=4, LOCK_UN=8 (linux)")
 
 
+def p_c08(facts, rep, tier):
+    import vguard
+
+    rep.explanation = (
+        "C08 (thin, structural): S1 - VerifiedPathProof / VerifiedMultiProof are constructed only inside PathProof::verify / "
+        "multi_proof::verify (besides derive(Clone)), behind the `equal` edge of the comparison between the recomputed root (hash_path / "
+        "verify_range result) and the `root` parameter; S2 - every Ok returned by the six confirm_* functions is either behind a branch "
+        "whose other edge returns KeyOutOfScope or derives from / is dominated by in_scope / find_index_for, and those predicates compare "
+        "the key's prefix with the proven path; S3 - every variant of the five error types has a raising site on the corresponding "
+        "verifier's path (one frozen exception). Plus compile-fail witnesses (thorough tier) that a client cannot build a Verified* object. "
+        "This decides that acceptance passes through the checks; it does not decide that the comparisons are the right ones nor hashing."
+    )
+    n1 = vguard.s1(facts, rep)
+    n2 = vguard.s2(facts, rep)
+    n3 = vguard.s3(facts, rep)
+    rep.floor("S1 obligations", n1, 8)
+    rep.floor("S2 obligations", n2, 14)
+    rep.floor("S3 error variants", n3, 16)
+    import witness
+
+    nw = witness.run(rep, ["c08"])
+    rep.floor("C08 witness doctests", nw, 4)
+    rep.assume("collision resistance and domain separation of the hasher", "the comparisons themselves (`<` vs `<=`, which bits) are not validated")
+    rep.trust("rustc MIR (nightly, mir-opt-level=0)", "rules/vguard.py tables")
+
+
 _CTX = {}
 
 
@@ -242,6 +272,7 @@ def p_c17(facts, rep, tier):
 PROPS = {
     "C03": p_c03,
     "C04": p_c04,
+    "C08": p_c08,
     "C09": p_c09,
     "C11": p_c11,
     "C12": p_c12,
